@@ -292,6 +292,15 @@ inline void auditPartition(const ADD& d, const AuditOpt& o, vf::Case& c, const s
       if (threw || g != s.b[i + 1]) { fail("bounds|getBound-differs-from-getBounds", where()); break; }
     }
   }
+  // --- "equal probabilities when possible": the scheme exists to fall back on equal intervals whenever two consecutive bounds of the
+  //     equal-probability partition coincide (an empty class interval cannot carry the same mass as the others); whichever branch was
+  //     taken, no class interval of the result is empty (equal intervals over a domain with non-empty interior are never empty)
+  if (bok && s.scheme == 3 && s.ub > s.lb) {
+    for (size_t i = 0; i < k; ++i) if (s.b[i] == s.b[i + 1]) {
+      fail("bounds|empty-class-interval-in-the-equal-probability-when-possible-scheme" + dc, where() + " | class " + str(i) + " is [" + num(s.b[i]) + "," + num(s.b[i + 1]) + "] with probability " + num(s.p[i]));
+      break;
+    }
+  }
   // --- each value inside its own class interval, up to the resolution the object declares for class values: the boundary adjustment
   //     moves a value by one precision() and the duplicate separation by at most k of them
   if (bok && vok) {
